@@ -163,7 +163,10 @@ def history_cases(ctx, n):
                                'RSET %s=%s' % (rng.choice(sv), sx())])
         if r < 0.84:
             return rng.choice(['ERASE S$', 'ERASE T$', 'ERASE N', 'DIM S$(3)', 'DIM T$(2,2)', 'DIM N(4)', 'ERASE S$:DIM S$(%d)' % rng.randint(2, 9),
-                               'OPTION BASE 1', 'OPTION BASE 0'])
+                               'OPTION BASE 1', 'OPTION BASE 0',
+                               # allocations that fail (Out of memory) and later references to those arrays
+                               'DIM HG(20000)', 'DIM HS$(30000)', 'DIM HD#(9000)', 'HG(1)=1', 'PRINT HG(2);HS$(1)', 'ERASE HG', 'ERASE HS$',
+                               'HS$(3)=A$', 'X=HD#(1)', 'SWAP HG(1),X', 'DIM HG(3)', 'ERASE HD#'])
         if r < 0.90:
             return rng.choice(['DEF FNS$(P$)=P$+A$', 'DEF FNT$(P$,Q$)=Q$+P$+S$(1)', 'DEF FNN(P)=P+LEN(B$)', 'DEF FNS$(A$)=A$+A$', 'DEFSTR P-Q',
                                'DEFINT P', 'DEFSNG A-Z'])
